@@ -1,6 +1,7 @@
 import Xo.Props.C08
 import Xo.Props.C10
 import Xo.Lemmas.Copy
+import Xo.Lemmas.RefGraphX
 /-! C09 — copy-construction yields an equal, storage-disjoint object (property theorems only).
 Reference-free types are copied byte for byte (`update_from_xbuffer`, into the same buffer, another buffer or another context -
 the model's `copyBytes` from any source memory into any destination memory).  Types holding references are rebuilt field- /
@@ -139,6 +140,54 @@ write through a reference) is updated from the node at 128 (class 0, scalars 1 a
 example : fromLE (readAt (RG.updObj RGEx.exU RGEx.exS 0 128).b.mem 0 8) = 1 ∧
     fromLE (readAt (RG.updObj RGEx.exU RGEx.exS 0 128).b.mem 8 8) = 2 ∧
     RG.findObj RGEx.exS 0 = some ⟨0, 16, some 0⟩ ∧ RG.findObj RGEx.exS 128 = some ⟨128, 16, some 0⟩ := by decide +kernel
+
+/-- **references inside the copy resolve to valid objects in the copy's own buffer: duplicates when the copy goes to ANOTHER buffer.**
+`src` and `d` are two buffers in states satisfying the reference-graph invariant (every reachable state: `C08_ref_history`), `a` a
+node of class `c` in `src`.  `xcopy` is `Cls(h, _buffer=other)`: the node and - depth first, in field order, once per path -
+everything it refers to are constructed in `d`.  Whenever it ends (it does not on a cycle of references: the library dies with
+RecursionError, the model runs out of fuel), for ANY fuel:
+
+* `d'` satisfies the invariant again (every reference of the copy denotes a live node of the right class INSIDE `d'`), the copy is a
+  live node of class `c`;
+* `d'` holds everything `d` held, byte for byte, plus new nodes only (pairwise disjoint and disjoint from the old ones by the
+  invariant) - and `src` is not even an output of the function: the source buffer is only read;
+* the copy is indistinguishable from the source by reads along paths of EVERY length `n`: equal scalars, null where the source is
+  null, referents of the same class that are again indistinguishable (`Sim`) - i.e. the copy is equal to the source as a value,
+  although not one of its bytes that encode references needs to be the same. -/
+theorem C09_copy_into_other_buffer (u : RG.Univ) (hu : RG.UWF u) (src d : RG.St) (hs : RG.Inv u src) (hd : RG.Inv u d)
+    (fuel a c : Nat) (hobj : RG.IsObj src a c) (d' : RG.St) (o : Nat) (h : RG.xcopy u src fuel d a c = some (d', o))
+    (hcap : d'.b.a.capacity < 2 ^ 62) :
+    RG.Inv u d' ∧ RG.IsObj d' o c ∧ (∃ news, d'.live = news ++ d.live) ∧ (∀ e ∈ d.live, RG.Unchanged d d' e) ∧
+    ∀ n, RG.Sim u src d' n a o c := by
+  obtain ⟨i1, i2, _, i4, news, i5, i6⟩ := RG.xcopy_spec hu hs fuel d a c d' o hd hobj h hcap
+  exact ⟨i1, i2, ⟨news, i5⟩, i4, i6 d' (fun e _ => RG.unchanged_refl d' e)⟩
+
+/-- later histories of the destination do not disturb the copy: in any state that keeps the bytes of the nodes the copy created, it
+still reads like the source (what `C03_ref_ops_frame` guarantees for every operation that is not applied to one of those nodes) -/
+theorem C09_copy_into_other_buffer_stable (u : RG.Univ) (hu : RG.UWF u) (src d : RG.St) (hs : RG.Inv u src) (hd : RG.Inv u d)
+    (fuel a c : Nat) (hobj : RG.IsObj src a c) (d' : RG.St) (o : Nat) (h : RG.xcopy u src fuel d a c = some (d', o))
+    (hcap : d'.b.a.capacity < 2 ^ 62) :
+    ∃ news, d'.live = news ++ d.live ∧ ∀ s'' : RG.St, (∀ e ∈ news, RG.Unchanged d' s'' e) → ∀ n, RG.Sim u src s'' n a o c := by
+  obtain ⟨_, _, _, _, news, i5, i6⟩ := RG.xcopy_spec hu hs fuel d a c d' o hd hobj h hcap
+  exact ⟨news, i5, i6⟩
+
+/-! non-vacuity: a node whose two references denote ONE node is copied into an empty buffer of capacity 8 (which grows): the copy
+at 0 refers to TWO new nodes (24 and 40), both reading 5, 6; the hypotheses hold (reachable states, `C08_ref_history`) -/
+namespace RGX
+open RG
+def exU : Univ := [[.scal, .scal], [.scal, .ref 0, .ref 0]]
+def exSrc : St := [Op.new 0 [5, 6], .new 1 [7], .bindObj 16 1 0, .bindObj 16 2 0].foldl (step exU) (initSt 64 (2 ^ 3) none)
+def exDst : St := initSt 8 (2 ^ 3) none
+example : IsObj exSrc 16 1 := ⟨⟨16, 24, some 1⟩, by decide +kernel, rfl, rfl⟩
+def exRes : Option (St × Nat) := xcopy exU exSrc 5 exDst 16 1
+def exD : St := (exRes.getD (exDst, 99)).1
+example : exRes.map (·.2) = some 0 ∧ exD.b.a.capacity < 2 ^ 62 ∧
+    deref exD.b.mem 8 = some 24 ∧ deref exD.b.mem 16 = some 40 ∧ deref exSrc.b.mem 24 = some 0 ∧ deref exSrc.b.mem 32 = some 0 ∧
+    fromLE (readAt exD.b.mem 24 8) = 5 ∧ fromLE (readAt exD.b.mem 48 8) = 6 ∧ exD.live.length = 3 := by decide +kernel
+/-- a cycle never ends: with fuel 50 the result is still `none` (the library: RecursionError) -/
+example : (xcopy [[.ref 0]] ([Op.new 0 [], .bindObj 0 0 0].foldl (step [[.ref 0]]) (initSt 64 (2 ^ 3) none)) 50 exDst 0 0).isNone
+    = true := by decide +kernel
+end RGX
 
 /-! non-vacuity: a dynamic struct copied from offset 3 of one memory to offset 40 of another -/
 example :
